@@ -14,6 +14,20 @@ theorem C19_all_translated :
     ∀ f ∈ ["SafeAdd", "SafeSub", "SafeMul", "SafeDiv", "SafeLeftShift", "SafeMulUint64", "SafeMulInt64", "Safe64MulDiv"],
       f ∈ translated := by decide
 
+/-- "every integer type": the constraint `Integer` admits exactly the eight integer types and every defined type over
+them (`~`).  (The translated subset has no means to tell a defined type from its underlying type - no type switch, no
+`any(x)`, no reflection: such a tree is rejected by the translator - so the theorems about `IntTy` cover defined types.) -/
+theorem C19_integer_constraint :
+    integerConstraint = ["~uint64", "~uint32", "~uint16", "~uint8", "~int64", "~int32", "~int16", "~int8"] := by decide
+
+/-- The interface of the exported functions as the model, the driver and the harness assume it: generic functions take and
+return the type itself, the shift count is a `uint8` (0..255), the 64-bit helpers are fixed to `uint64` / `int64`. -/
+theorem C19_signatures : signatures =
+    [("SafeAdd", "[Integer](T, T) (T, error)"), ("SafeSub", "[Integer](T, T) (T, error)"), ("SafeMul", "[Integer](T, T) (T, error)"),
+     ("SafeMulUint64", "(uint64, uint64) (uint64, error)"), ("SafeMulInt64", "(int64, int64) (int64, error)"),
+     ("SafeDiv", "[Integer](T, T) (T, error)"), ("SafeLeftShift", "[Integer](T, uint8) (T, error)"),
+     ("Safe64MulDiv", "(uint64, uint64, uint64) (uint64, error)")] := by decide
+
 /-! ## Identity of the returned errors (`errors.Is`), from regenerated facts
 
 `sentinelDefs`, `ierrorsWrappers` and `errorSites` are extracted from safe_math.go and from
